@@ -1,7 +1,7 @@
 //! [`BoxedUint`] bitwise left shift operations.
 
 use crate::{
-    BoxedUint, ConstChoice, ConstantTimeSelect, Limb, ShlVartime, Word, WrappingShl, Zero,
+    BoxedUint, ConstantTimeSelect, Limb, ShlVartime, WrappingShl, Zero,
 };
 use core::ops::{Shl, ShlAssign};
 use subtle::{Choice, ConstantTimeLess, CtOption};
@@ -148,21 +148,16 @@ impl BoxedUint {
     pub(crate) fn shl_limb(&self, shift: u32) -> (Self, Limb) {
         let mut limbs = vec![Limb::ZERO; self.limbs.len()];
 
-        let nz = ConstChoice::from_u32_nonzero(shift);
         let lshift = shift;
-        let rshift = nz.if_true_u32(Limb::BITS - shift);
-        let carry = nz.if_true_word(
-            self.limbs[self.limbs.len() - 1]
-                .0
-                .wrapping_shr(Word::BITS - shift),
-        );
+        let rshift = Limb::BITS - 1 - shift;
+        let carry = (self.limbs[self.limbs.len() - 1].0 >> 1) >> rshift;
 
         limbs[0] = Limb(self.limbs[0].0 << lshift);
         let mut i = 1;
         while i < self.limbs.len() {
             let mut limb = self.limbs[i].0 << lshift;
-            let hi = self.limbs[i - 1].0 >> rshift;
-            limb |= nz.if_true_word(hi);
+            let hi = (self.limbs[i - 1].0 >> 1) >> rshift;
+            limb |= hi;
             limbs[i] = Limb(limb);
             i += 1
         }
